@@ -275,6 +275,12 @@ Definition rollback_chain (cfg : Defects) (t : N) (s : cledger) : N * cledger :=
           end
     end.
 
+(** blockfile on (re)open: NewBlockFile.repair, then NewChainLedgerImpl drops the one block a
+    crash can leave beyond the chain meta (repaired in /repo; see Model/Crash.v) *)
+Definition reopen_bf (cm : cmeta) (bf : bfile) : bfile :=
+  let r := bf_repair bf in
+  if bf_blocks r =? cm_height cm + 1 then bf_truncate_blocks (cm_height cm) r else r.
+
 (** * Histories.  [full = true]: driven through [ledger.Ledger] (PersistBlockData,
     Ledger.Rollback = state first, then chain; reopen = ledger.New);  [full = false]: the
     chain ledger alone (PersistExecutionResult, RollbackBlockChain, NewChainLedgerImpl). *)
@@ -302,7 +308,7 @@ Definition step (cfg : Defects) (full : bool) (o : op) (s : cledger) : N * cledg
   | OReopen =>
       (* NewBlockFile.repair, loadChainMeta, NewSimpleLedger; ledger.New's Rollback(meta.Height)
          is a no-op on both sides while state and chain move in lockstep *)
-      (0, mkCL (bf_repair (cl_bf s)) (cl_ix s) (load_meta (cl_ix s))
+      (0, mkCL (reopen_bf (load_meta (cl_ix s)) (cl_bf s)) (cl_ix s) (load_meta (cl_ix s))
                (if full then jw_reopen (cl_jw s) else cl_jw s))
   end.
 
